@@ -658,8 +658,11 @@ theorem min_norm_relative_scaling (A : Matrix m n K) (t : m → K) (ht : ∀ i, 
     (by simpa [hinv] using hmu)
   simp only [hinv, inv_inv] at h
   refine ⟨h.1, fun y hy => ?_⟩
-  have := h.2 y hy
-  simpa [div_eq_inv_mul] using this
+  have h2 := h.2 y hy
+  have e1 : ∀ j, du j / E j = (E j)⁻¹ * du j := fun j => by rw [div_eq_inv_mul]
+  have e2 : ∀ j, y j / E j = (E j)⁻¹ * y j := fun j => by rw [div_eq_inv_mul]
+  simp only [e1, e2]
+  exact h2
 
 end MinNorm
 
